@@ -350,6 +350,49 @@ pub fn c13_flush_retry() -> R {
     Ok(())
 }
 
+pub fn c13_failed_set_len() -> R {
+    // set_len fails after the entry was updated; a later write + flush must not panic
+    let (buf, mut c) = fresh(Version::V3);
+    let mut s = c.create_stream("/a").unwrap();
+    s.write_all(&[1u8; 50]).unwrap();
+    s.flush().unwrap();
+    let count = |b: &SharedBuf| b.ctl.lock().unwrap().seq;
+    {
+        let mut ctl = buf.ctl.lock().unwrap();
+        ctl.fail_kinds = [false, true, true, true];
+        ctl.seq = 0;
+    }
+    // find how many raw calls a set_len(6000) makes on a copy, then fail each in turn
+    let snapshot = buf.snapshot();
+    drop(s);
+    drop(c);
+    let run = |k: Option<u64>| -> Result<u64, String> {
+        let b = SharedBuf::new(snapshot.clone());
+        let mut c = CompoundFile::open(b.clone()).map_err(|e| e.to_string())?;
+        let mut s = c.open_stream("/a").map_err(|e| e.to_string())?;
+        {
+            let mut ctl = b.ctl.lock().unwrap();
+            ctl.fail_kinds = [false, true, true, true];
+            ctl.seq = 0;
+            if let Some(k) = k {
+                ctl.fail_at = vec![k];
+            }
+        }
+        let _ = s.set_len(6000);
+        no_panic("write+flush after failed set_len", || {
+            let _ = s.write(&[2u8; 10]);
+            let _ = s.flush();
+            let _ = s.len();
+        })?;
+        Ok(count(&b))
+    };
+    let n = run(None)?;
+    for k in 0..n {
+        run(Some(k)).map_err(|e| format!("fault at raw call {} of set_len(6000): {}", k, e))?;
+    }
+    Ok(())
+}
+
 pub fn c14_lock_depth() -> R {
     let (_b, mut c) = fresh(Version::V3);
     c.create_storage("/d").unwrap();
@@ -402,6 +445,7 @@ pub fn all() -> Vec<(&'static str, &'static str, fn() -> R)> {
         ("C11", "sectors_beyond_fat", c11_sectors_beyond_fat),
         ("C12", "failed_refill", c12_failed_refill),
         ("C13", "flush_retry", c13_flush_retry),
+        ("C13", "failed_set_len", c13_failed_set_len),
         ("C14", "lock_depth", c14_lock_depth),
         ("C15", "small_cycle", c15_small_cycle),
     ]
